@@ -71,10 +71,14 @@ def run_cli(cmd: List[str], smt2: str, timeout_s: int) -> str:
 
 
 def check_unsat(formulas: List[Any], timeout_ms: int = 20000) -> Verdict:
+    """Portfolio: z3 5.1 (API) briefly, then /usr/bin/z3 4.8.12 and
+    /usr/bin/cvc5 on the same query, then z3 5.1 with the full budget.
+    `unsat` from any of them proves; only z3's own model refutes."""
     STATS["queries"] += 1
     t0 = time.time()
+    first_ms = min(timeout_ms, 3000)
     s = z3.Solver()
-    s.set("timeout", timeout_ms)
+    s.set("timeout", first_ms)
     s.add(*formulas)
     r = s.check()
     ms = (time.time() - t0) * 1000
@@ -85,30 +89,42 @@ def check_unsat(formulas: List[Any], timeout_ms: int = 20000) -> Verdict:
             v = _cross_check(formulas, v, timeout_ms)
         return v
     if r == z3.sat:
-        try:
-            md = _model_dict(s.model())
-        except Exception:
-            md = {}
-        return Verdict("refuted", ms, "z3", model=md,
-                       smt2=_safe_smt2(formulas))
-    # unknown: try the CLI solvers on the same query
+        return _refuted(s, ms, formulas)
     smt2 = _safe_smt2(formulas)
     if smt2 is not None:
         t1 = time.time()
-        STATS["cvc5_calls"] += 1
-        ans = run_cli([CVC5, "--strings-exp", f"--tlimit={timeout_ms}"], smt2,
-                      timeout_ms // 1000)
-        cms = (time.time() - t1) * 1000
-        STATS["cvc5_ms"] += cms
-        if ans == "unsat":
-            return Verdict("proved", ms + cms, "cvc5")
         STATS["z3cli_calls"] += 1
         ans2 = run_cli([Z3CLI, f"-T:{max(1, timeout_ms // 1000)}"], smt2,
                        timeout_ms // 1000)
         if ans2 == "unsat":
-            return Verdict("proved", ms + cms, "z3-4.8.12")
-    return Verdict("undecided", ms, "z3", reason=f"z3: {s.reason_unknown()}",
-                   smt2=smt2)
+            return Verdict("proved", (time.time() - t0) * 1000, "z3-4.8.12")
+        STATS["cvc5_calls"] += 1
+        t2 = time.time()
+        ans = run_cli([CVC5, "--strings-exp", f"--tlimit={timeout_ms}"], smt2,
+                      timeout_ms // 1000)
+        STATS["cvc5_ms"] += (time.time() - t2) * 1000
+        if ans == "unsat":
+            return Verdict("proved", (time.time() - t0) * 1000, "cvc5")
+    if timeout_ms > first_ms:
+        s = z3.Solver()
+        s.set("timeout", timeout_ms)
+        s.add(*formulas)
+        r = s.check()
+        ms = (time.time() - t0) * 1000
+        if r == z3.unsat:
+            return Verdict("proved", ms, "z3")
+        if r == z3.sat:
+            return _refuted(s, ms, formulas)
+    return Verdict("undecided", (time.time() - t0) * 1000, "z3",
+                   reason=f"z3: {s.reason_unknown()}", smt2=smt2)
+
+
+def _refuted(s, ms, formulas) -> Verdict:
+    try:
+        md = _model_dict(s.model())
+    except Exception:
+        md = {}
+    return Verdict("refuted", ms, "z3", model=md, smt2=_safe_smt2(formulas))
 
 
 def _cross_check(formulas, v: Verdict, timeout_ms: int) -> Verdict:
